@@ -11,6 +11,8 @@ def correspondence(ctx):
     C17.correspondence(ctx, ctx.scale(96, 1200), ctx.scale(30, 60))
     from .. import histcorr
     histcorr.correspondence(ctx, ctx.scale(32, 400))
+    from .. import choosercorr
+    choosercorr.correspondence(ctx, ctx.scale(64, 640))     # the regenerated selection loop against the slots real runs choose
 
 
 def run(ctx):
@@ -21,7 +23,7 @@ def run(ctx):
             histcorr.correspondence(c, 600)
         finally:
             c.seed -= 1000
-    return G.run(ctx, 'C04', 'proof', ('Gen_util', 'Gen_model', 'Gen_tables'), ['Char_model.v', 'C17.v', 'Slots.v', 'C04.v'], TRUSTED,
+    return G.run(ctx, 'C04', 'proof', ('Gen_util', 'Gen_model', 'Gen_controller', 'Gen_tables'), ['Char_model.v', 'C17.v', 'Slots.v', 'C04.v'], TRUSTED,
                  correspondence=correspondence, corr_needs=['Char_model', 'C17'], search_extra=more_histories)
 
 
